@@ -71,3 +71,7 @@ Proof. vm_compute. reflexivity. Qed.
 Example weak_hypotheses :
   on_graph ex_dg (fun g => wstep_ok_b Z.eqb g && is_ok (weakly_connected_components Z.eqb g)) false = true.
 Proof. vm_compute. reflexivity. Qed.
+
+Example bfs_total_hypotheses :
+  on_graph ex_dg (fun g => step_total_b Z.eqb g && memb Z.eqb 2 (g_nodes g)) false = true.
+Proof. vm_compute. reflexivity. Qed.
